@@ -106,6 +106,8 @@ def gen_case(rng, index, tier):
         return dict(mode='killsweep', ops=ops, budget_s=60 if tier == 'thorough' else 15)
     if rng.random() < 0.4:
         op = gen_op(rng, small=rng.random() < (0.5 if tier == 'thorough' else 0.8))
+        if rng.random() < 0.08:
+            op = dict(t='iter', r='Big', args=[rng.choice([1, 2])], m=rng.choice([1, 2, 3]))   # items written in several write() calls (pickle frames)
         while op.get('f') == 'f_fails':
             op = gen_op(rng, small=True)
         return dict(mode='enum', op=op, eseed=rng.randrange(1 << 30), over=rng.choice(['empty', 'empty', 'old_fail', 'bogus_long']))
